@@ -423,7 +423,7 @@ func genOp(r *vgen.Rand, fresh *int) op {
 		}
 		return o
 	case 16, 17:
-		return op{Kind: kSetStatus, Code: codes.Code(r.Intn(3)), Name: vgen.Pick(r, []string{"", "d1", "d2", "why"})}
+		return op{Kind: kSetStatus, Code: vgen.Pick(r, []codes.Code{codes.Unset, codes.Error, codes.Error, codes.Ok}), Name: vgen.Pick(r, []string{"", "d1", "d2", "why"})}
 	case 18:
 		return op{Kind: kSetName, Name: vgen.Pick(r, []string{"n1", "n2", ""})}
 	}
@@ -515,7 +515,7 @@ func bigProgram(r *vgen.Rand) program {
 
 func main() {
 	o := vgen.ParseFlags()
-	r := vgen.NewRand(o.Seed)
+	r := vgen.NewRand(o.Seed).Fork() // Fork: NewRand(s+1) is NewRand(s) advanced by one draw (splitmix increment = seed multiplier); the fork decorrelates seeds
 	w := vgen.NewWriter(o.Out, "Lib.Utf8 C04.Spec C04.Model C04.Corr", "case", 200)
 	w.Rule = "programs of span API calls (Start options, SetAttributes, AddEvent, RecordError, AddLink, SetStatus, SetName, End) over a 6-key pool with " +
 		"invalid/duplicate/fresh keys under limits from {-1,0,1,2,3,5,128}, observed at the in-memory exporter and through the ended span's accessors; " +
@@ -655,7 +655,7 @@ func main() {
 	flushTrunc()
 	i1 := attribute.Int("a", 1)
 	corpus := []program{
-		// F-C04-2 / F-C04-3: limit 0 => exported dropped counters stay 0
+		// F-C04-2 / F-C04-3 (fixed by 543ed08): limit 0 => the exported dropped counters must be exact
 		{Lim: limits{-1, -1, 0, 0, -1, -1}, Name0: "s", Ops: []op{{Kind: kAddEvent, Name: "e", TS: 1}, {Kind: kAddEvent, Name: "e", TS: 2}, {Kind: kAddLink, Ctx: 1}}},
 		{Lim: limits{-1, -1, 0, -1, -1, -1}, Name0: "s", Ops: []op{{Kind: kRecordError, Name: "boom", TS: 1}}},
 		{Lim: limits{-1, -1, -1, 0, -1, -1}, Name0: "s", NStart: 1, Ops: []op{{Kind: kAddLink, Ctx: 2, Attrs: []attribute.KeyValue{i1}}}},
@@ -677,7 +677,7 @@ func main() {
 	}
 
 	// ---- generated programs ----
-	nProg := o.Count(1100, 30000)
+	nProg := o.Count(1700, 30000)
 	for i := 0; i < nProg; i++ {
 		addProgram(genProgram(r, 60), "span")
 	}
@@ -686,7 +686,7 @@ func main() {
 	}
 
 	// ---- truncate: random strings under random limits ----
-	nT := o.Count(700, 20000)
+	nT := o.Count(1000, 20000)
 	for i := 0; i < nT; i++ {
 		s := genString(r)
 		lim := vgen.Pick(r, []int{-1, 0, 1, 2, 3, 5, 128})
